@@ -104,8 +104,9 @@ def trusted_scan(text):
 
 # --------------------------------------------------------------------------------------------------
 def run_verus(path, extra=(), timeout=600):
-    cmd = ['verus', os.path.basename(path), '--output-json', '--time', '--multiple-errors', '20',
-           '--error-format=json'] + list(extra)
+    cmd = ['verus', os.path.basename(path), '--output-json', '--time', '--multiple-errors', '20', '--error-format=json'] + list(extra)
+    if '--num-threads' not in cmd:
+        cmd += ['--num-threads', '8']
     t0 = time.time()
     try:
         p = subprocess.run(cmd, cwd=os.path.dirname(path), capture_output=True, text=True, timeout=timeout)
@@ -551,71 +552,96 @@ def find_missing_callees(unit, ctx, text, workdir, repo):
     return found
 
 
+def _impl_header_of(text, pos):
+    """header of the impl block that contains offset pos (column-0 `impl ... {`), or None for a free function"""
+    k = text.rfind('\nimpl', 0, pos)
+    while k >= 0:
+        line_end = text.find('{', k)
+        hdr = text[k + 1:line_end].strip()
+        # is pos inside this block?  blocks at column 0 end with a line that is exactly '}'
+        end = text.find('\n}\n', line_end)
+        if end < 0 or end > pos:
+            # make sure no other column-0 item starts between
+            between = text[line_end:pos]
+            if not re.search(r'\n(pub |fn |impl|struct|enum|mod |trait )', between.replace('\npub fn', '\n fn').replace('\npub async fn', '\n fn').replace('\nfn ', '\n fn ').replace('\nasync fn', '\n fn')):
+                return hdr
+            return None
+        k = text.rfind('\nimpl', 0, k)
+    return None
+
+
 def run_probes(unit, ctx, text, workdir):
-    """emit probe clones into the rendered unit (inside the impl block they belong to) and require that verus
-    rejects each.  Clones verus cannot type-check (probe not placeable at that point) are pruned and counted."""
+    """every probe clone goes into its own module (`impl` blocks may live in any module of the crate), so that verus checks
+    them in parallel and ONLY them (--verify-module).  verus must reject each; clones that do not type-check are pruned."""
     probes, desc = gen_probes(ctx)
     if not probes:
         return dict(emitted=0, rejected=0, unplaceable=0)
-    unit_mod = unit
-    place = getattr(unit_mod, 'PROBE_PLACEMENT', {})  # key -> marker line after which the clone is inserted
+    mods = {}
+    for idx, (key, ptxt) in enumerate(probes):
+        marker = '// @FNOBL %s::body' % key
+        pos = text.find(marker)
+        if pos < 0:
+            raise Undecided('probe placement marker lost for %s' % key)
+        hdr = _impl_header_of(text, pos)
+        if hdr and ' for ' in hdr:
+            # a trait impl cannot take extra methods: put the clone into an inherent impl of the same type
+            m = re.match(r'impl(\s*<[^>]*>)?\s+.*?\s+for\s+(.*)$', hdr, re.S)
+            hdr = 'impl%s %s' % (m.group(1) or '', m.group(2)) if m else None
+        body = ptxt if not hdr else '%s {\n%s\n}' % (hdr, ptxt)
+        uses = 'use super::*;\n'
+        for mm in re.finditer(r'\npub mod (\w+) \{', text[:pos]):
+            close = text.find('} // mod %s' % mm.group(1), mm.end())
+            if close > pos:
+                uses += 'use super::%s::*;\n' % mm.group(1)
+        mods[idx] = 'pub mod __probe_%d {\n%s%s\n}\n' % (idx, uses, body)
     live = list(range(len(probes)))
     unplace = []
+    tail = text.rfind('fn main() {}')
     for _round in range(6):
-        t = text
-        # insert each probe right before the `// ---- extracted:` header of its function (same impl block)
-        for idx in live:
-            key, ptxt = probes[idx]
-            marker = '// @FNOBL %s::body' % key
-            pos = t.find(marker)
-            if pos < 0:
-                raise Undecided('probe placement marker lost for %s' % key)
-            hdr = t.rfind('// ---- extracted:', 0, pos)
-            t = t[:hdr] + '// ---- probe %d\n' % idx + ptxt + '\n' + t[hdr:]
-        # strip the obligations markers of the original so that errors are only read for probes
+        t = text[:tail] + ''.join(mods[i] for i in live) + text[tail:]
         path = os.path.join(workdir, unit.NAME + '__probes.rs')
         with open(path, 'w') as f:
             f.write(t)
-        r = run_verus(path, extra=getattr(unit, 'VERUS_ARGS', ()))
-        vr = (r['json'] or {}).get('verification-results')
         lines = t.split('\n')
+
+        def probe_of(ln):
+            for k in range(ln, 0, -1):
+                mm = re.match(r'pub mod __probe_(\d+) \{$', lines[k - 1])
+                if mm:
+                    return int(mm.group(1))
+                if lines[k - 1].startswith('// ---- extracted:'):
+                    return None
+            return None
+        extra = list(getattr(unit, 'VERUS_ARGS', ())) + ['--num-threads', '16']
+        for i in live:
+            extra += ['--verify-only-module', '__probe_%d' % i]
+        r = run_verus(path, extra=extra)
+        vr = (r['json'] or {}).get('verification-results')
         hard = [d for d in r['diags'] if d.get('level') == 'error' and not d.get('message', '').startswith('aborting due')
                 and not any(k in d.get('message', '') for k in VERIFY_FAIL_MSGS)]
         if vr is None or vr.get('encountered-vir-error') or hard:
-            # prune clones that do not compile
             bad = set()
             for d in (hard or r['diags']):
                 if d.get('level') != 'error':
                     continue
-                for s in d.get('spans', []):
-                    ln = s['line_start']
-                    for k in range(ln, 0, -1):
-                        mm = re.match(r'// ---- probe (\d+)$', lines[k - 1])
-                        if mm:
-                            bad.add(int(mm.group(1)))
-                            break
-                        if lines[k - 1].startswith('// ---- extracted:'):
-                            break
+                for sp in d.get('spans', []):
+                    pi = probe_of(sp['line_start'])
+                    if pi is not None:
+                        bad.add(pi)
             if not bad:
                 raise Undecided('probe file of unit %s rejected by verus outside probe clones: %s'
                                 % (unit.NAME, '; '.join(d.get('message', '') for d in r['diags'][:3])))
             unplace += sorted(bad)
             live = [i for i in live if i not in bad]
             continue
-        # which probes failed (= rejected = good)?
         rejected = set()
         for d in r['diags']:
             if d.get('level') != 'error':
                 continue
-            for s in d.get('spans', []):
-                ln = s['line_start']
-                for k in range(ln, 0, -1):
-                    mm = re.match(r'// ---- probe (\d+)$', lines[k - 1])
-                    if mm:
-                        rejected.add(int(mm.group(1)))
-                        break
-                    if lines[k - 1].startswith('// ---- extracted:'):
-                        break
+            for sp in d.get('spans', []):
+                pi = probe_of(sp['line_start'])
+                if pi is not None:
+                    rejected.add(pi)
         vac = [i for i in live if i not in rejected]
         allowed = set(getattr(unit, 'PROBE_UNREACHABLE_OK', ()))
         vac = [i for i in vac if '%s:%d:%s' % (desc[i]['fn'], desc[i]['block'], desc[i]['point']) not in allowed]
@@ -623,6 +649,8 @@ def run_probes(unit, ctx, text, workdir):
             d0 = desc[vac[0]]
             raise Undecided('cover probe VERIFIED (vacuous or inconsistent path) in unit %s: fn %s block %d (%s) point %s'
                             % (unit.NAME, d0['fn'], d0['block'], d0['kind'], d0['point']))
+        if vr.get('verified', 0) + vr.get('errors', 0) < len(live):
+            raise Undecided('probe run of unit %s checked %d items for %d probes' % (unit.NAME, vr.get('verified', 0) + vr.get('errors', 0), len(live)))
         return dict(emitted=len(live), rejected=len(rejected & set(live)), unplaceable=len(unplace), wall_s=round(r['wall'], 2))
     raise Undecided('probe pruning did not converge in unit %s' % unit.NAME)
 
